@@ -634,6 +634,18 @@ func (w *worker) runCase(c tcase) *result {
 		if !waitIdle(p) {
 			w.harnessErr("round did not quiesce within 120 s")
 		}
+		if how != "enqueue" {
+			// processEntry's deferred inflightRemove decrements inflight_count first and clears the catch-up tag
+			// in a second critical section: let that settle before FullyCaughtUp() is read (bounded, so a tag
+			// that really leaks is still reported as caught_up=false, deterministically).
+			for i := 0; i < 20000 && p.Stats()["catchup_inflight"] != 0; i++ {
+				if i < 50 {
+					runtime.Gosched()
+				} else {
+					time.Sleep(20 * time.Microsecond)
+				}
+			}
+		}
 		after := p.Stats()
 		w.observe("end of round")
 		fs, ps := w.finalState(cr), w.partState(cr)
@@ -744,8 +756,13 @@ type memoT struct {
 	m  map[string]uint8
 }
 
-func (m *memoT) get(k string) (uint8, bool) { m.mu.Lock(); defer m.mu.Unlock(); v, ok := m.m[k]; return v, ok }
-func (m *memoT) put(k string, v uint8)      { m.mu.Lock(); m.m[k] = v; m.mu.Unlock() }
+func (m *memoT) get(k string) (uint8, bool) {
+	m.mu.Lock()
+	defer m.mu.Unlock()
+	v, ok := m.m[k]
+	return v, ok
+}
+func (m *memoT) put(k string, v uint8) { m.mu.Lock(); m.m[k] = v; m.mu.Unlock() }
 
 func shrinkTo(c tcase, n int) (tcase, bool) {
 	out := tcase{N: n, R: c.R, Init: c.Init}
@@ -942,15 +959,16 @@ func main() {
 		run.Finish()
 	}
 
-	// binding self-check: the staging file is <final>.part and a cut transfer leaves exactly the received bytes there;
-	// a clean transfer ends at the final path; the scripted peer is really asked to resume.
+	// binding self-check (harness assumptions only; a run that already shows a property violation is left to
+	// the enumeration to report): the staging file is <final>.part and a cut transfer leaves exactly the received
+	// bytes there; with a second attempt the scripted peer is really asked to resume from that offset.
 	{
 		r := workers[0].runCaseChecked(tcase{N: 4, Init: initState{K: "none"}, R: 1, Seq: []outcome{{K: "trunc", P: 2}}})
-		if len(r.Trace) == 0 || !strings.Contains(r.Trace[0], "part=2/correct") {
+		if r.Kinds == 0 && (len(r.Trace) == 0 || !strings.Contains(r.Trace[0], "part=2/correct")) {
 			unbound(fmt.Sprintf("staging-file convention changed (expected 2 received bytes in <path>.part after a cut transfer): %v", r.Trace))
 		}
 		r = workers[0].runCaseChecked(tcase{N: 4, Init: initState{K: "none"}, R: 2, Seq: []outcome{{K: "trunc", P: 2}}})
-		if r.Resumes != 1 || r.Kinds != 0 {
+		if r.Kinds == 0 && r.Resumes != 1 {
 			unbound(fmt.Sprintf("resume path not exercised as expected: %v", r.Trace))
 		}
 	}
@@ -982,6 +1000,11 @@ func main() {
 		trace  []string
 	}
 	var raws []rawViol
+	var dumpF *os.File // debugging aid: VERIF_C25_DUMP=<file> writes "case<TAB>trace" for every case
+	if df := os.Getenv("VERIF_C25_DUMP"); df != "" {
+		dumpF, _ = os.Create(df)
+		defer dumpF.Close()
+	}
 	var wg sync.WaitGroup
 	for _, w := range workers {
 		wg.Add(1)
@@ -1009,6 +1032,11 @@ func main() {
 					hh := sha256.Sum256([]byte(fmt.Sprintf("n=%d|%s", c.N, strings.Join(res.Trace, "\n"))))
 					dmu.Lock()
 					distinct[hh] = true
+					dmu.Unlock()
+				}
+				if dumpF != nil {
+					dmu.Lock()
+					fmt.Fprintf(dumpF, "%s\t%s\n", c.key(), strings.Join(res.Trace, " ; "))
 					dmu.Unlock()
 				}
 				if res.Kinds != 0 {
